@@ -138,9 +138,11 @@ pub fn bracket_string(rng: &mut Rng, min: usize, max: usize) -> String {
 pub fn whitespace_string(rng: &mut Rng, min: usize, max: usize) -> String {
     let n = rng.range(min, max);
     let mut s = String::new();
-    let mode = rng.below(10);
+    let mode = rng.below(11);
     for _ in 0..n {
         let piece = match mode {
+            // characters whose UTF-8 bytes equal a white-space byte modulo 64 or 128 (bit-set and table look-ups)
+            10 => *rng.pick(&["I", "J", "M", "`", "@", "\u{260}", "\u{28a}", "\u{820}", "i", "\u{89}", " I", "J\n"]),
             0..=4 => *rng.pick(&[" ", "\t", "\n", "\r", "  ", "\n  "]),
             5 => *rng.pick(&["\u{a0}", "\u{85}", "\u{2003}", "\u{2028}", "\u{3000}", "\u{1680}", "\u{feff}", "\u{200b}", "\u{c}", "\u{b}", "\u{1f}", "\u{1c}"]),
             6 => *rng.pick(&[" ", "\u{a0}", "\n", "\u{2003}", "\u{c}", "\u{b}"]),
